@@ -42,38 +42,38 @@ func main() {
 		Workers:     8,
 		CaseTimeout: 120 * time.Second,
 		Floors: map[string]int64{
-			"gets_total":                              40000,
-			"results_returned":                        1900,
-			"returned_with_references":                1900,
-			"references_verified_present":             18000,
-			"refused_missing":                         4000,
-			"refused_single_missing_output-file":      600,
-			"refused_single_missing_stdout":           80,
+			"gets_total":                              33000,
+			"results_returned":                        2200,
+			"returned_with_references":                2100,
+			"references_verified_present":             29000,
+			"refused_missing":                         3400,
+			"refused_single_missing_output-file":      520,
+			"refused_single_missing_stdout":           90,
 			"refused_single_missing_stderr":           90,
-			"refused_single_missing_tree":             190,
-			"refused_single_missing_root-directory":   110,
-			"refused_single_missing_tree-file":        2400,
-			"refused_single_missing_tree-directory":   220,
-			"refused_malformed":                       3700,
-			"refused_single_malformed_output-file":    370,
-			"refused_single_malformed_stdout":         60,
-			"refused_single_malformed_stderr":         60,
-			"refused_single_malformed_tree":           120,
-			"refused_single_malformed_root-directory": 50,
-			"refused_single_malformed_tree-file":      2700,
-			"refused_single_malformed_tree-directory": 330,
-			"refused_oversized":                       220,
-			"refused_cas_fault":                       500,
+			"refused_single_missing_tree":             180,
+			"refused_single_missing_root-directory":   97,
+			"refused_single_missing_tree-file":        2000,
+			"refused_single_missing_tree-directory":   140,
+			"refused_malformed":                       3200,
+			"refused_single_malformed_output-file":    310,
+			"refused_single_malformed_stdout":         51,
+			"refused_single_malformed_stderr":         51,
+			"refused_single_malformed_tree":           130,
+			"refused_single_malformed_root-directory": 61,
+			"refused_single_malformed_tree-file":      2200,
+			"refused_single_malformed_tree-directory": 190,
+			"refused_oversized":                       240,
+			"refused_cas_fault":                       440,
 			"refused_tree_corrupt-served":             10000,
-			"refused_tree_stream-error":               5000,
-			"refused_tree_unparseable":                6000,
-			"returned_unrequired_directory_absent":    550,
-			"returned_after_tree_mutation":            700,
-			"budget_at_limit_returned":                78,
-			"multi_batch_gets":                        9000,
-			"flaky_runs":                              900,
-			"flaky_returned":                          400,
-			"gets_on_reused_decorator":                600,
+			"refused_tree_stream-error":               6700,
+			"refused_tree_unparseable":                6100,
+			"returned_unrequired_directory_absent":    660,
+			"returned_after_tree_mutation":            710,
+			"budget_at_limit_returned":                84,
+			"multi_batch_gets":                        9800,
+			"flaky_runs":                              920,
+			"flaky_returned":                          430,
+			"gets_on_reused_decorator":                1000,
 		},
 		Assumptions: []string{
 			"'reported present during that call' is decided from the model CAS's per-call log of FindMissing requests and replies",
@@ -84,20 +84,6 @@ func main() {
 		},
 		Body: body,
 	})
-}
-
-// caseRng derives the case's generator from c.Rng and a strong mix of the run
-// seed. lib/gen.New folds its seeds in with a plain XOR, so that for 8 workers
-// the seeds 1, 2 and 3 yield the same eight per-worker streams in a different
-// order (2C-1, 2C+2, 2C+1 differ from each other only in the three low bits,
-// which is exactly what XOR-ing the worker index 0..7 permutes). Everything is
-// still a function of (seed, worker, group, case index), so replays work.
-func caseRng(c *run.Case, w *run.Worker) *gen.Rng {
-	z := (w.Seed + 1) * 0x9e3779b97f4a7c15
-	z = (z ^ (z >> 30)) * 0xbf58476d1ce4e5b9
-	z = (z ^ (z >> 27)) * 0x94d049bb133111eb
-	z ^= z >> 31
-	return gen.New(z, c.Rng.Uint64(), c.Rng.Uint64())
 }
 
 var faultCodes = []codes.Code{codes.Unavailable, codes.Internal, codes.DeadlineExceeded, codes.NotFound, codes.Canceled, codes.ResourceExhausted}
@@ -169,7 +155,7 @@ func unrequiredAbsent(w *world, exp *expectation) bool {
 func body(w *run.Worker) {
 	// ------------------------------------------------------------------ random
 	w.Cases("random", w.N(2400, 60000), func(c *run.Case) {
-		r := caseRng(c, w)
+		r := c.Rng
 		h := harness{c, w}
 		o := randomOpts(r)
 		o.nilTreeOK = r.Chance(1, 10)
@@ -304,7 +290,7 @@ func body(w *run.Worker) {
 
 	// ------------------------------------------------------------ each-missing
 	w.Cases("each-missing", w.N(640, 12000), func(c *run.Case) {
-		r := caseRng(c, w)
+		r := c.Rng
 		h := harness{c, w}
 		o := cleanOpts(r)
 		o.nilPerMille = r.Pick(0, 0, 100)
@@ -350,7 +336,7 @@ func body(w *run.Worker) {
 
 	// -------------------------------------------------------------- each-fault
 	w.Cases("each-fault", w.N(320, 6000), func(c *run.Case) {
-		r := caseRng(c, w)
+		r := c.Rng
 		h := harness{c, w}
 		o := cleanOpts(r)
 		o.maxFiles = r.Pick(3, 6, 12)
@@ -393,7 +379,7 @@ func body(w *run.Worker) {
 
 	// -------------------------------------------------------------- tree-bytes
 	w.Cases("tree-bytes", w.N(240, 5000), func(c *run.Case) {
-		r := caseRng(c, w)
+		r := c.Rng
 		h := harness{c, w}
 		o := cleanOpts(r)
 		o.maxFiles, o.maxDirs, o.bigTree = 3, 2, false
@@ -476,7 +462,7 @@ func body(w *run.Worker) {
 	// n-th CAS call of the Get starts (expiry / upload racing with the check).
 	// Only what the CAS reported during the call decides.
 	w.Cases("changing-cas", w.N(240, 6000), func(c *run.Case) {
-		r := caseRng(c, w)
+		r := c.Rng
 		h := harness{c, w}
 		o := cleanOpts(r)
 		o.maxFiles = r.Pick(3, 6)
@@ -516,7 +502,7 @@ func body(w *run.Worker) {
 
 	// ------------------------------------------------------------------ budget
 	w.Cases("budget", w.N(320, 6000), func(c *run.Case) {
-		r := caseRng(c, w)
+		r := c.Rng
 		h := harness{c, w}
 		o := cleanOpts(r)
 		o.maxDirs = r.Pick(1, 2, 4, 6)
@@ -548,7 +534,7 @@ func body(w *run.Worker) {
 
 	// ---------------------------------------------------------- each-malformed
 	w.Cases("each-malformed", w.N(400, 6000), func(c *run.Case) {
-		r := caseRng(c, w)
+		r := c.Rng
 		h := harness{c, w}
 		o := cleanOpts(r)
 		o.nilPerMille = r.Pick(0, 0, 100)
